@@ -1,6 +1,7 @@
 package main
 
 import (
+	"bytes"
 	"fmt"
 	"math"
 	"strings"
@@ -390,6 +391,66 @@ func runC02(cfg *config) *Report {
 			if impl[i] == spec {
 				rep.violate(Violation{Key: "C02:corr:render:" + c.Rec, What: "regenerated write table does not reproduce String() (translator/model stale)",
 					Replay: map[string]any{"record": c.Rec, "vals": wireVals(c.Vals), "implementation_hex": impl[i], "model_hex": gen}, NoInput: true})
+			}
+		}
+	}
+	// C. the Writer: what it emits for a record is that record's String(), framed and nothing else - also when
+	// field values hold line breaks, tabs or multi-byte text (the Writer validates the file's shape, not its fields)
+	hostile := []string{"A\r\nB", "X\nY", "Q\rZ", "T\tU", "é", "  pad  ", "\r\n"}
+	for fi := 0; fi < 6; fi++ {
+		f, err := genFile(r, genOpts{maxCL: 1, maxBundles: 2, maxItems: 2, mutateP: 20})
+		if err != nil {
+			continue
+		}
+		recs := writerOrder(f)
+		// one string member of every third record takes a hostile value
+		for ri, rec := range recs {
+			if ri%3 != fi%3 {
+				continue
+			}
+			goName := strings.TrimPrefix(fmt.Sprintf("%T", rec), "*imagecashletter.")
+			L := layoutOf(goName)
+			if L == nil {
+				continue
+			}
+			for _, w := range L.Write {
+				if kindOfConv(w.Conv) == 'S' && w.Conv != "lit" && w.Width >= 6 && !strings.HasPrefix(w.Src, "reserved") && w.Src[0] >= 'A' && w.Src[0] <= 'Z' && !strings.HasPrefix(w.Src, "Length") {
+					setField(rec, w.Src, FV{K: 'S', S: []byte(hostile[(fi+ri)%len(hostile)])})
+					break
+				}
+			}
+		}
+		for _, e := range []encCfg{{false, false}, {true, false}} {
+			out, werr, pn := realWrite(f, e)
+			rep.Evaluations++
+			rep.count("writer-framing:" + e.String())
+			if pn != nil || werr != nil {
+				rep.count("writer-framing:refused")
+				continue
+			}
+			var want bytes.Buffer
+			for _, rec := range recs {
+				s, p := recString(rec)
+				if p != nil {
+					continue
+				}
+				if e.LP {
+					n := len(s)
+					want.Write([]byte{byte(n >> 24), byte(n >> 16), byte(n >> 8), byte(n)})
+					want.WriteString(s)
+				} else {
+					want.WriteString(s)
+					want.WriteByte('\n')
+				}
+			}
+			rep.nontrivial("writer|" + e.String() + "|" + hx(out)[:min(len(out)*2, 4000)])
+			if !bytes.Equal(out, want.Bytes()) {
+				at := 0
+				for at < len(out) && at < want.Len() && out[at] == want.Bytes()[at] {
+					at++
+				}
+				rep.violate(Violation{Key: "C02:writer-alters-record:" + e.String(), What: fmt.Sprintf("the Writer's output is not the framed String() of the file's records (first difference at byte %d of %d / %d)", at, len(out), want.Len()),
+					Replay: map[string]any{"tree": dumpFile(f), "enc": e.String(), "written_hex": hx(out), "expected_hex": hx(want.Bytes())}})
 			}
 		}
 	}
